@@ -40,6 +40,13 @@ func (n *cnNet) governanceProjection(t mkvs.ImmutableKeyValueTree) (map[string]a
 		case p.Content.CancelUpgrade != nil:
 			kind = "cancel"
 		}
+		upEpoch, cancels := int64(-1), int64(0)
+		if p.Content.Upgrade != nil {
+			upEpoch = int64(p.Content.Upgrade.Descriptor.Epoch)
+		}
+		if p.Content.CancelUpgrade != nil {
+			cancels = int64(min(p.Content.CancelUpgrade.ProposalID, 1<<30))
+		}
 		res := map[string]int64{"yes": 0, "no": 0, "abstain": 0}
 		for v, q := range p.Results {
 			q := q
@@ -58,7 +65,7 @@ func (n *cnNet) governanceProjection(t mkvs.ImmutableKeyValueTree) (map[string]a
 			"votes": vl,
 			"id":    int64(p.ID), "submitter": n.nameOf(p.Submitter), "state": p.State.String(), "closes_at": int64(p.ClosesAt),
 			"deposit": qi(&p.Deposit), "kind": kind, "results": res, "has_results": p.Results != nil, "invalid": int64(p.InvalidVotes),
-			"created_at": int64(p.CreatedAt),
+			"created_at": int64(p.CreatedAt), "up_epoch": upEpoch, "cancels": cancels,
 		})
 	}
 	if pl == nil {
@@ -102,7 +109,28 @@ func (n *cnNet) governanceProjection(t mkvs.ImmutableKeyValueTree) (map[string]a
 	}
 	sort.Strings(entNames)
 	sort.Strings(valNodes)
+	// pending upgrades, read in the two ways the state offers: by proposal (is this upgrade proposal pending?) and by scanning the
+	// pending-upgrade index (epochs of the descriptors it yields)
+	pend := []map[string]any{}
+	for _, p := range props {
+		if p.Content.Upgrade == nil {
+			continue
+		}
+		if up, uerr := gs.PendingUpgradeProposal(ctx, p.ID); uerr == nil {
+			pend = append(pend, map[string]any{"id": int64(p.ID), "epoch": int64(up.Descriptor.Epoch)})
+		}
+	}
+	pendEpochs := []int64{}
+	pds, err := gs.PendingUpgrades(ctx)
+	if err != nil {
+		return nil, err
+	}
+	for _, d := range pds {
+		pendEpochs = append(pendEpochs, int64(d.Epoch))
+	}
+	sort.Slice(pendEpochs, func(i, j int) bool { return pendEpochs[i] < pendEpochs[j] })
 	return map[string]any{
+		"pending_upgrades": pend, "pending_epochs": pendEpochs,
 		"proposals": pl, "vals": vals, "valnodes": valNodes, "entities": entNames, "entnodes": entNodes,
 		"params": map[string]any{
 			"threshold": int64(params.StakeThreshold), "period": int64(params.VotingPeriod), "min_deposit": qi(&params.MinProposalDeposit),
